@@ -27,8 +27,7 @@ def find_function(relpath: str, qual: str):
         found = None
         for child in ast.walk(node) if not isinstance(node, (ast.Module, ast.ClassDef)) else node.body:
             if isinstance(child, (ast.FunctionDef, ast.AsyncFunctionDef, ast.ClassDef)) and child.name == p and child is not node:
-                found = child
-                break
+                found = child      # the last definition wins (typing.overload stubs precede the implementation)
         if found is None:
             raise KeyError('function %s not found in %s (at %r)' % (qual, relpath, p))
         node = found
